@@ -22,6 +22,12 @@
 #include "vnacal.h"
 
 /*
+ * VNACAL_MAX_DIMENSION: largest number of rows or columns for which the
+ *   term offsets below (up to 4 * ports^2) fit in an int
+ */
+#define VNACAL_MAX_DIMENSION	16384
+
+/*
  * vnacal_layout_t: type and layout of the error terms
  */
 typedef struct vnacal_layout {
